@@ -285,6 +285,7 @@ const DIRECTED: &[(&str, &str, &str)] = &[
     ("unterminated_query", "(module", "pass"),
     ("lone_brace", "{", "pass"),
     ("nul_char", "(module) { print \"\0\" }", "pass"),
+    ("plus_on_top_of_star_quantifier", "(identifier)*+ @xs { node n attr (n) x = @xs }", "x = y\n"),
 ];
 
 fn render_load_error(e: &tree_sitter_graph::ParseError, text: &str, out: &mut Out, case: &serde_json::Value) -> bool {
@@ -378,6 +379,31 @@ impl Prop for C05 {
             return;
         }
         let case = json!({"dsl": text, "source": source, "kind": label});
+        if std::env::var("TSGMON_DUMP").is_ok() {
+            eprintln!("--- dsl\n{}\n--- source\n{}\n--- kind {}", text, source, label);
+        }
+        // texts with two quantifiers in a row are first loaded in a process of their own: a hang
+        // there is attributed by sampling the child's stack
+        if stacked_quantifiers(&text) {
+            out.feat("load_probed_in_subprocess");
+            match probe_load(&text) {
+                Probe::Finished => {}
+                Probe::Hung(stack) => {
+                    out.eval();
+                    if stack.trim().is_empty() {
+                        // the hang is real but cannot be attributed without the stack sample
+                        out.inconclusive("load-probe hung and its stack could not be sampled (gdb unavailable?)");
+                        return;
+                    }
+                    let sig = if stack.contains("ts_query_new") { "C05:hang:tree-sitter-query-compiler" } else { "C05:hang:load" };
+                    let mut c = case.clone();
+                    c["stack_of_hung_process"] = json!(crate::util::trunc(&stack, 1500));
+                    out.violation(sig, "File::from_str did not return within 4 s (median load time is below 1 ms)", c);
+                    return;
+                }
+                Probe::Unavailable => out.feat("load_probe_unavailable"),
+            }
+        }
         // (a) loading
         let loaded = exec::load(&text);
         out.eval();
@@ -459,6 +485,80 @@ impl Prop for C05 {
             out.sample(case);
         }
     }
+}
+
+/// two quantifier characters in a row (captures and blanks may sit in between)
+fn stacked_quantifiers(text: &str) -> bool {
+    let cs: Vec<char> = text.chars().collect();
+    let mut i = 0;
+    while i < cs.len() {
+        if cs[i] == '*' || cs[i] == '?' || cs[i] == '+' || cs[i] == ')' && false {
+            // skip blanks, closing parens/brackets and captures
+            let mut j = i + 1;
+            loop {
+                while j < cs.len() && (cs[j].is_whitespace() || cs[j] == ')' || cs[j] == ']') {
+                    j += 1;
+                }
+                if j < cs.len() && cs[j] == '@' {
+                    j += 1;
+                    while j < cs.len() && (cs[j].is_alphanumeric() || cs[j] == '_' || cs[j] == '-' || cs[j] == '.') {
+                        j += 1;
+                    }
+                    continue;
+                }
+                break;
+            }
+            if j < cs.len() && (cs[j] == '*' || cs[j] == '?' || cs[j] == '+') {
+                return true;
+            }
+        }
+        i += 1;
+    }
+    false
+}
+
+enum Probe {
+    Finished,
+    Hung(String),
+    Unavailable,
+}
+
+fn probe_load(text: &str) -> Probe {
+    use std::io::Write;
+    use std::process::{Command, Stdio};
+    let exe = match std::env::current_exe() {
+        Ok(e) => e,
+        Err(_) => return Probe::Unavailable,
+    };
+    let mut child = match Command::new(exe).arg("load-probe").stdin(Stdio::piped()).stdout(Stdio::null()).stderr(Stdio::null()).spawn() {
+        Ok(c) => c,
+        Err(_) => return Probe::Unavailable,
+    };
+    if let Some(mut stdin) = child.stdin.take() {
+        let _ = stdin.write_all(text.as_bytes());
+    }
+    let t0 = std::time::Instant::now();
+    loop {
+        match child.try_wait() {
+            Ok(Some(_)) => return Probe::Finished,
+            Ok(None) => {}
+            Err(_) => return Probe::Unavailable,
+        }
+        if t0.elapsed().as_secs_f64() > 4.0 {
+            break;
+        }
+        std::thread::sleep(std::time::Duration::from_millis(5));
+    }
+    // sample the stack of the hung child
+    let stack = Command::new("gdb")
+        .args(["-p", &child.id().to_string(), "-batch", "-ex", "bt 30"])
+        .stderr(Stdio::null())
+        .output()
+        .map(|o| String::from_utf8_lossy(&o.stdout).lines().filter(|l| l.starts_with('#')).map(|l| l.split(" at ").next().unwrap_or(l).to_string()).collect::<Vec<_>>().join(" | "))
+        .unwrap_or_default();
+    let _ = child.kill();
+    let _ = child.wait();
+    Probe::Hung(stack)
 }
 
 fn exec_variant(e: &tree_sitter_graph::ParseError) -> String {
